@@ -524,6 +524,34 @@ def _value_kind(eng, fi, cfg, at, val, vec_positions):
     return None
 
 
+def rule_no_raw_user_values_in_result(eng, rep, rule="C20-6.result-arrays-are-made-by-the-package-not-raw-user-return-values"):
+    """to_dict calls .tolist() on x / resid / jacobian and from_dict rebuilds float arrays.  That reproduces the fields only if they are arrays made by the
+    package (np.mean, copies of the model's float arrays, arithmetic): a value returned by a user callback (a list, an integer array) must not flow into a
+    result field by plain copies."""
+    from .anchors import anchors
+    from .c02 import final_ctor
+    A = anchors(eng)
+    ci, b = final_ctor(eng, A)
+    vfg = eng.vfg
+    user_results = set()
+    for (fi, node, role) in vfg.user_calls:
+        if set(role.split("|")) & {"objfun", "h", "prox_uh", "nsamples"}:
+            user_results.add(("e", id(node)))       # (user projections are excluded: the last projector is always the package's own box, C09-2)
+    for pn in ("xmin", "rmin", "jacmin"):
+        e = b.params.get(pn)
+        if e is None or isinstance(e, tuple):
+            continue
+        w = vfg.back([vfg.key_of(e)], lambda s_, k, i, d: k in ("copy", "proj", "tup", "sel", "default", "index"), stop=lambda n: n in user_results)
+        hit = [n for n in w.nodes if n in user_results]
+        if hit:
+            rep.bad(rule, vfg.describe(hit[0]), "result-field-is-a-raw-user-value|%s" % pn,
+                    "the value returned by a user callback can reach soln.%s through plain copies: if the callback returns a list or a non-float array, to_dict()/from_dict() do not reproduce the field"
+                    % {"xmin": "x", "rmin": "resid", "jacmin": "jacobian"}[pn], path=w.path(hit[0])[-10:])
+        else:
+            rep.ok(rule, eng.where(A.solve, ci.node), "soln.%s is never a raw callback return value (every flow from objfun passes np.mean / an array store / arithmetic)" % {"xmin": "x", "rmin": "resid", "jacmin": "jacobian"}[pn])
+    rep.require_count(rule, "user callback call sites known to the value-flow graph", len(user_results), 10)
+
+
 def run(eng, rep):
     rep.explain("C20: to_dict keys = from_dict keys = constructor fields, each routed to the field of the same name (T9/T4); "
                 "to_dict emits only None/tolist()/int()/float()/str()/nested dict and the replace_nan branch covers the whole dict, "
@@ -536,3 +564,4 @@ def run(eng, rep):
     safe = rule_none_back_to_nan(eng, rep, forms)
     rule_str_never_formats_none(eng, rep, safe=safe)
     rule_diag_columns_scalar(eng, rep)
+    rule_no_raw_user_values_in_result(eng, rep)
